@@ -4,6 +4,7 @@ import functools
 import io
 from hashlib import md5
 from pathlib import Path
+from tempfile import mkdtemp
 
 from . import CSS, DEFAULT_OPTIONS
 from .anchors import gather_anchors, make_page_bookmark_tree
@@ -154,8 +155,11 @@ class DiskCache:
     """
 
     def __init__(self, folder):
-        self._path = Path(folder)
-        self._path.mkdir(parents=True, exist_ok=True)
+        self._folder = Path(folder)
+        self._folder.mkdir(parents=True, exist_ok=True)
+        # Store files in a private folder, so that caches using the same folder
+        # don't remove or replace the files of the other ones
+        self._path = Path(mkdtemp(dir=self._folder))
         self._memory_cache = {}
         self._disk_paths = set()
 
@@ -187,6 +191,7 @@ class DiskCache:
             for path in self._disk_paths:
                 path.unlink(missing_ok=True)
             self._path.rmdir()
+            self._folder.rmdir()
         except Exception:
             # Silently ignore errors while clearing cache
             pass
